@@ -7,13 +7,13 @@ from harness import coqtools
 REPORT = re.compile(r"=\s*\(\s*(\d+)(?:%nat)?\s*,\s*\[([^\]]*)\]\s*\)", re.S)
 
 
-def eval_cases(name, header, ok_fun, case_terms, shard=400, timeout=900):
+def eval_cases(name, header, ok_fun, case_terms, shard=400, timeout=900, ctype=None):
     """case_terms: list of Coq terms (strings).  Returns (n_evaluated,
     [global indices of mismatches], [error logs])."""
     items = []
     for s in range(0, len(case_terms), shard):
         chunk = case_terms[s:s + shard]
-        text = header + "\nDefinition cases := [\n" + ";\n".join(chunk) + "\n].\n" \
+        text = header + "\nDefinition cases%s := [\n" % ((" : list (%s)" % ctype) if ctype else "") + ";\n".join(chunk) + "\n].\n" \
             + "Eval vm_compute in (report %s cases).\n" % ok_fun
         items.append(("%s_%d" % (name, s), text))
     res = coqtools.run_cases_parallel(items, timeout=timeout)
